@@ -24,6 +24,7 @@ import (
 	"slices"
 	"sort"
 	"strings"
+	"sync/atomic"
 	"testing"
 	"time"
 
@@ -104,6 +105,10 @@ type Script struct {
 	Ops      []Op          `json:"ops"`
 	IterFrom int           `json:"iter_from"` // final check: iterator started from the IterFrom-th issued cursor of the final manual traversal
 	Modern   int           `json:"modern"`    // feature kind whose final check is repeated on a 2026-07-28 session
+	// Hidden: alphabet indices a server-side middleware removes from every list page AFTER the page was cut
+	// (as an access filter would), during one more final check: pages may then be empty while still carrying
+	// a next cursor, which manual paging follows and the iterators must follow too.
+	Hidden []int `json:"hidden,omitempty"`
 }
 
 var legacyVersions = []string{"2025-06-18", "2025-06-18", "2025-11-25", "2025-03-26", "2024-11-05"}
@@ -195,6 +200,13 @@ func gen(rt *rapid.T) Script {
 		return op
 	}), rapid.IntRange(0, 24).Draw(rt, "min_ops"), 40).Draw(rt, "ops")
 	s.IterFrom = rapid.IntRange(0, 15).Draw(rt, "iter_from")
+	if density := rapid.SampledFrom([]int{0, 3, 6, 9}).Draw(rt, "hide_density"); density > 0 {
+		for n := range alphabet {
+			if rapid.IntRange(0, 9).Draw(rt, "hide") < density {
+				s.Hidden = append(s.Hidden, n)
+			}
+		}
+	}
 	s.Modern = kindGen.Draw(rt, "modern")
 	return s
 }
@@ -549,6 +561,7 @@ type env struct {
 	pool   []issued
 	desc   strings.Builder
 	nt     bool
+	hideOn atomic.Bool
 }
 
 var theT *testing.T
@@ -601,6 +614,7 @@ func runInBubble(s Script, res *vt.Result) {
 			addFeature(e.server, k, id, e.m.add(k, id))
 		}
 	}
+	e.server.AddReceivingMiddleware(e.hidingMiddleware)
 	version := s.Version
 	if version == "" {
 		version = "2025-06-18"
@@ -635,6 +649,9 @@ func runInBubble(s Script, res *vt.Result) {
 		return
 	}
 	e.finalChecks(cs, version, []int{0, 1, 2, 3})
+	if len(res.Violations) == 0 && len(s.Hidden) > 0 {
+		e.filteredChecks(cs, version, []int{0, 1, 2, 3})
+	}
 	if len(res.Violations) == 0 {
 		// The same on a session speaking the current protocol (client-side list cache path).
 		cs2, ss2, err := connect(e.server, "2026-07-28")
@@ -642,6 +659,9 @@ func runInBubble(s Script, res *vt.Result) {
 			res.Failf("harness: %v", err)
 		} else {
 			e.finalChecks(cs2, cs2.InitializeResult().ProtocolVersion, []int{e.kind(s.Modern)})
+			if len(res.Violations) == 0 && len(s.Hidden) > 0 {
+				e.filteredChecks(cs2, cs2.InitializeResult().ProtocolVersion, []int{e.kind(s.Modern)})
+			}
 			cs2.Close()
 			ss2.Close()
 		}
@@ -1134,6 +1154,125 @@ func (e *env) finalChecks(cs *mcp.ClientSession, version string, kinds []int) {
 			e.res.Class("iter_multi_page")
 		} else {
 			e.res.Class("iter_single_page")
+		}
+	}
+}
+
+// hidden says whether the middleware removes the feature with this id from list pages.
+func (e *env) hidden(kind int, id string) bool {
+	for _, n := range e.s.Hidden {
+		if idOf(kind, n) == id {
+			return true
+		}
+	}
+	return false
+}
+
+// hidingMiddleware post-filters list results while hideOn is set: the page was cut by the SDK, the
+// next cursor stays, some (possibly all) of its items disappear.
+func (e *env) hidingMiddleware(next mcp.MethodHandler) mcp.MethodHandler {
+	return func(ctx context.Context, method string, req mcp.Request) (mcp.Result, error) {
+		res, err := next(ctx, method, req)
+		if err != nil || !e.hideOn.Load() {
+			return res, err
+		}
+		switch r := res.(type) {
+		case *mcp.ListToolsResult:
+			c := *r
+			c.Tools = nil
+			for _, t := range r.Tools {
+				if !e.hidden(kTool, t.Name) {
+					c.Tools = append(c.Tools, t)
+				}
+			}
+			return &c, nil
+		case *mcp.ListPromptsResult:
+			c := *r
+			c.Prompts = nil
+			for _, t := range r.Prompts {
+				if !e.hidden(kPrompt, t.Name) {
+					c.Prompts = append(c.Prompts, t)
+				}
+			}
+			return &c, nil
+		case *mcp.ListResourcesResult:
+			c := *r
+			c.Resources = nil
+			for _, t := range r.Resources {
+				if !e.hidden(kRes, t.URI) {
+					c.Resources = append(c.Resources, t)
+				}
+			}
+			return &c, nil
+		case *mcp.ListResourceTemplatesResult:
+			c := *r
+			c.ResourceTemplates = nil
+			for _, t := range r.ResourceTemplates {
+				if !e.hidden(kTmpl, t.URITemplate) {
+					c.ResourceTemplates = append(c.ResourceTemplates, t)
+				}
+			}
+			return &c, nil
+		}
+		return res, err
+	}
+}
+
+// filteredChecks: with the hiding middleware on, manual paging (which follows every next cursor, also the
+// one of an empty page) and the client-side iterators must still yield the same sequence.
+func (e *env) filteredChecks(cs *mcp.ClientSession, version string, kinds []int) {
+	e.hideOn.Store(true)
+	defer e.hideOn.Store(false)
+	limit := 4*len(alphabet) + 10
+	for _, k := range kinds {
+		var manual []string
+		emptyMid := false
+		var cursor *string
+		for pages := 0; ; pages++ {
+			if pages > limit {
+				e.res.Failf("%s (protocol %s, filtered): manual paging did not end after %d pages", kindName[k], version, pages)
+				return
+			}
+			items, next, err := fetch(cs, k, cursor)
+			if err != nil {
+				e.res.Failf("%s (protocol %s, filtered): manual paging failed: %v", kindName[k], version, err)
+				return
+			}
+			for _, it := range items {
+				manual = append(manual, it.id)
+			}
+			if next == "" {
+				break
+			}
+			if len(items) == 0 {
+				emptyMid = true
+			}
+			cursor = &next
+		}
+		var want []string
+		for _, id := range e.m.sorted(k) {
+			if !e.hidden(k, id) {
+				want = append(want, id)
+			}
+		}
+		if !slices.Equal(manual, want) {
+			e.res.Failf("%s (protocol %s, filtered): manual paging returned %q, registered and not hidden are %q", kindName[k], version, manual, want)
+			return
+		}
+		got, err := iterate(cs, k, nil, limit)
+		if err != nil {
+			e.res.Failf("%s (protocol %s, filtered): iterator failed after yielding %q: %v (manual paging: %q)", kindName[k], version, got, err, manual)
+			return
+		}
+		if !slices.Equal(got, manual) {
+			e.res.Failf("%s (protocol %s): iterator yielded %q, manual paging %q (page size %d; a server-side filter left a page empty: %v)", kindName[k], version, got, manual, e.s.PageSize, emptyMid)
+			return
+		}
+		if emptyMid {
+			e.res.Class("iter_over_empty_page_with_cursor")
+			e.nt = true
+		} else {
+			e.res.Class("iter_filtered_no_empty_page")
 		}
 	}
 }
